@@ -79,6 +79,12 @@ def run(tier, seed):
             scen.append({**s, "cut": 0, "via_read_half": False, "soak": 120 if thorough else 25, "junk_from": donors[0]["frames"] if donors else []})
     for s in sorted(pt, key=valid_frames, reverse=True)[:1]:
         scen.append({**s, "cut": 0, "via_read_half": True, "soak": 25})
+    # bodies far larger than one read returns: a SEND with a 200 000-byte (and a 65 537-byte) binary payload, a tick and a small SEND, delivered
+    # in pieces of 4096 / 1000 bytes and in one write, through both read loops
+    for n_big in (200000, 65537):
+        for cut in (4096, 1000, 0):
+            for rh in (False, True):
+                scen.append({"hist": [["big_send", n_big], ["tick", 0], ["send", 42]], "header_mode": False, "frames": [], "results": [], "cut": cut, "via_read_half": rh, "big": n_big})
     for i, s in enumerate(scen):
         s["id"] = i
     sp = os.path.join(lib.outdir(PID), "scenarios.ndjson")
@@ -96,6 +102,12 @@ def run(tier, seed):
             raise lib.ToolError("receive harness could not connect")
         if o["panicked"]:
             v.violation("a frame from the peer panicked the receiving task", case)
+            continue
+        if s.get("big"):
+            if not o["big_delivered_intact"] or not o["following_message_delivered_intact"] or o["messages_returned"] != 2:
+                v.violation("a message with a large payload delivered in pieces (or the message after it) did not come out as the peer sent it",
+                            {"payload_bytes": s["big"], "segmentation": s["cut"], "api": case["api"], "big_delivered_intact": o["big_delivered_intact"],
+                             "following_message_delivered_intact": o["following_message_delivered_intact"], "results": o["results"]})
             continue
         got = [r for r in o["results"] if r["k"] in ("msg", "err")]
         exp = s["results"]
